@@ -103,10 +103,24 @@ def _judge(argv0, groups):
     from codebasin import CompileCommand
 
     full = [argv0] + argv
-    back = CompileCommand("f.c", command=shlex.join(full)).arguments
-    if back != full:
-        bad.append(("command-form", full, back))
+    for style, text in (("single-quoted", shlex.join(full)), ("backslash-escaped", " ".join(_bs(a) for a in full)), ("double-quoted", " ".join(_dq(a) for a in full))):
+        back = CompileCommand("f.c", command=text).arguments
+        if back != full:
+            bad.append(("command-form", {"style": style, "command": text, "argv": full}, back))
+            break
     return bad
+
+
+def _bs(a):
+    """POSIX shell quoting with backslashes only (what CMake / Ninja emit)"""
+    return "".join(c if (c.isalnum() or c in "-_./=+,:@%") else "\\" + c for c in a) or "''"
+
+
+def _dq(a):
+    """shell quoting with double quotes (only \" and \\ are escaped: the alphabet has no $ or backquote, which shlex and sh treat differently)"""
+    if a and all(c.isalnum() or c in "-_./=+,:@%" for c in a):
+        return a
+    return '"' + "".join("\\" + c if c in '"\\' else c for c in a) + '"'
 
 
 def mk_failure(argv0, groups):
